@@ -233,6 +233,9 @@ class TemplateGen:
             if r.random() < 0.25:   # nested associated fields
                 body += [204000 + r.choice([2, 3]), 31021] + inner(1) + [204000]
                 self.features['op-204-nested'] += 1
+                if r.random() < 0.7:      # elements that carry only the OUTER field again, after the inner cancellation
+                    body += inner(r.choice([1, 2]))
+                    self.features['op-204-nested-then-outer'] += 1
             return [204000 + y] + body + ([] if unclosed else [204000])
         if k == '205':
             return [205000 + r.choice([1, 2, 5, 16])]
